@@ -118,6 +118,9 @@ func AnyBytes(l int) []byte {
 		}
 		return []byte{}
 	}
+	if ConcreteLeaves {
+		return []byte("ABCDEFGH"[:n])
+	}
 	return verifBytes(n)
 }
 
@@ -130,7 +133,19 @@ func put64(out []byte, v uint64) []byte {
 }
 
 // SpecEncode is the reference encoder (Thrift binary protocol).
-func SpecEncode(n *Node, out []byte) []byte {
+func SpecEncode(n *Node, out []byte) []byte { return specEncode(n, out, nil) }
+
+// SpecEncodeMarks also records, as offset*4+kind, the offset of every 4-byte
+// length or count field of the encoding (kind 0 binary length, 1 list/set
+// count preceded by one element-type byte, 2 map count preceded by two).
+func SpecEncodeMarks(n *Node, out []byte, marks *[]int) []byte { return specEncode(n, out, marks) }
+
+func specEncode(n *Node, out []byte, marks *[]int) []byte {
+	mark := func(off, kind int) {
+		if marks != nil {
+			*marks = append(*marks, off*4+kind)
+		}
+	}
 	switch n.T {
 	case wire.TBool, wire.TI8:
 		out = append(out, byte(n.Num))
@@ -141,27 +156,30 @@ func SpecEncode(n *Node, out []byte) []byte {
 	case wire.TI64, wire.TDouble:
 		out = put64(out, n.Num)
 	case wire.TBinary:
+		mark(len(out), 0)
 		out = put32(out, uint32(len(n.B)))
 		out = append(out, n.B...)
 	case wire.TStruct:
 		for i, f := range n.Kids {
 			out = append(out, byte(f.T))
 			out = put16(out, uint16(n.IDs[i]))
-			out = SpecEncode(f, out)
+			out = specEncode(f, out, marks)
 		}
 		out = append(out, 0)
 	case wire.TList, wire.TSet:
 		out = append(out, byte(n.KT))
+		mark(len(out), 1)
 		out = put32(out, uint32(len(n.Kids)))
 		for _, e := range n.Kids {
-			out = SpecEncode(e, out)
+			out = specEncode(e, out, marks)
 		}
 	case wire.TMap:
 		out = append(out, byte(n.KT), byte(n.VT))
+		mark(len(out), 2)
 		out = put32(out, uint32(len(n.Kids)))
 		for i := range n.Kids {
-			out = SpecEncode(n.Kids[i], out)
-			out = SpecEncode(n.Vals[i], out)
+			out = specEncode(n.Kids[i], out, marks)
+			out = specEncode(n.Vals[i], out, marks)
 		}
 	}
 	return out
@@ -426,17 +444,57 @@ func HasNaN(n *Node) uint64 {
 	return r
 }
 
+// ConcreteLeaves makes the value builders use fixed leaf values (only the
+// shape stays nondeterministic). Used where the symbolic part of the input
+// is a mutation of the encoding rather than the value.
+var ConcreteLeaves bool
+
 // exported wrappers of the harness API for the emitted adapters
-func VerifBool() bool         { return verifBool() }
-func VerifI8() int8           { return verifI8() }
-func VerifI16() int16         { return verifI16() }
-func VerifI32() int32         { return verifI32() }
-func VerifI64() int64         { return verifI64() }
-func VerifF64() float64       { return verifF64() }
-func VerifChoice(n int) int   { return verifChoice(n) }
-func VerifString(n int) string { return verifString(n) }
-func VerifB2I(b bool) int     { return verifB2I(b) }
-func VerifAssume(c bool)      { verifAssume(c) }
+func VerifBool() bool {
+	if ConcreteLeaves {
+		return true
+	}
+	return verifBool()
+}
+func VerifI8() int8 {
+	if ConcreteLeaves {
+		return 3
+	}
+	return verifI8()
+}
+func VerifI16() int16 {
+	if ConcreteLeaves {
+		return 300
+	}
+	return verifI16()
+}
+func VerifI32() int32 {
+	if ConcreteLeaves {
+		return 70001
+	}
+	return verifI32()
+}
+func VerifI64() int64 {
+	if ConcreteLeaves {
+		return 5000000001
+	}
+	return verifI64()
+}
+func VerifF64() float64 {
+	if ConcreteLeaves {
+		return 1.5
+	}
+	return verifF64()
+}
+func VerifChoice(n int) int { return verifChoice(n) }
+func VerifString(n int) string {
+	if ConcreteLeaves {
+		return "abcdefgh"[:n]
+	}
+	return verifString(n)
+}
+func VerifB2I(b bool) int { return verifB2I(b) }
+func VerifAssume(c bool)  { verifAssume(c) }
 
 // Register adds a harness entry point to the replay registry.
 func Register(name string, f func()) { verifHarnesses[name] = f }
@@ -447,7 +505,7 @@ func Register(name string, f func()) { verifHarnesses[name] = f }
 type Pat struct{ mode, idx int }
 
 func Pattern(n, d int) Pat {
-	if d < verifParam("depth") {
+	if d < verifParam("depth") || verifParam("simple") == 1 {
 		// nested value: every nilable field absent, or every one present
 		// (each type is explored in full as a top-level value)
 		return Pat{mode: 1 + verifChoice(2)}
